@@ -591,7 +591,11 @@ func runC12(env *Env) {
 				}
 			}
 			c := parseC12(toks)
-			env.Emit("C12 "+c.String(), c12One(c, NewRng(env.Rng.U64())))
+			// the property is schedule dependent: a replayed case is run several times, with
+			// different timing / burst windows / write splitting drawn from the PRNG
+			for rep := 0; rep < 6; rep++ {
+				env.Emit("C12 "+c.String(), c12One(c, NewRng(env.Rng.U64())))
+			}
 		}
 		return
 	}
